@@ -221,11 +221,72 @@ def run_formula(case):
     return result(ex, sorted(oc), fails)
 
 
+# ---- formulas whose reference operators are folded at compile time: inputs mapping and values against hand-written expectations
+def _v(env, k):
+    return env[k]
+
+
+FOLDED = [
+    # (formula, real inputs, expected(env) -> reference value)
+    ('IFERROR(B1:B2 D1:D2,C1)', ['C1'], lambda e: e['C1'] if e['C1'] != BLANK else N(0)),
+    ('IF(ISERROR(B4:B5 C1:D9),C1,0)', ['C1'], lambda e: e['C1'] if e['C1'] != BLANK else N(0)),
+    ('IFERROR(SUM(B1:B2 D1:D2),0)+IF(C1=C1,1,1)', ['C1'], lambda e: e['C1'] if e['C1'][0] == 'e' else N(1)),
+    ('SUM(B4:B5 C1:D9)', [], lambda e: NULL),
+    ('IFERROR(B1:C3 E2:F5,"none")&"|"', [], lambda e: T('none|')),
+    ('IF(C1=1,(B1:B2 D1:D2),"x")', ['C1'], lambda e: e['C1'] if e['C1'][0] == 'e' else (NULL if e['C1'] == N(1) else T('x'))),
+    ('ISERROR(B1:B2 D1:D2)&C1', ['C1'], None),
+]
+
+
+def folded_cases(tier):
+    for i in range(len(FOLDED)):
+        yield ['folded', i]
+
+
+def run_folded(case):
+    import re
+    import formulas, numpy as np
+    from formulas.ranges import Ranges
+    from xl.evalcell import classify, to_input, exc_name
+    _, i = case
+    text, real, expf = FOLDED[i]
+    fails, ex, oc = [], 0, set()
+    try:
+        func = formulas.Parser().ast('=' + text)[1].compile()
+        names = list(func.inputs)
+    except Exception as e:
+        return result(1, ['compile-escape'], [Fail('compile-escape', got=exc_name(e), exp='a function', formula=text)])
+    if sorted(names) != sorted(real):
+        fails.append(Fail('inputs-mapping', got=names, exp=real, formula=text, args='', order=','.join(names)))
+        return result(1, ['folded:inputs'], fails)
+    for args in itertools.product(FPOOL, repeat=len(names)):
+        ex += 1
+        env = dict(zip(names, args))
+        try:
+            v = func(*[Ranges().push(k, np.asarray(to_input(a), object)) for k, a in zip(names, args)])
+            got = classify(np.asarray(getattr(v, 'value', v), object).ravel()[0])
+        except Exception as e:
+            got = ('BAD', 'exc:' + exc_name(e))
+        oc.add('val:' + (got[1] if got[0] in ('e', 'BAD') else got[0]))
+        if expf is None:
+            if got[0] == 'BAD':
+                fails.append(Fail('formula-differs', got=got, exp='a value', formula=text, args=str(args), order=','.join(names)))
+            continue
+        exp = expf(env)
+        if not (got == exp or close(got, exp, 1e-12)):
+            fails.append(Fail('formula-differs', got=got, exp=exp, formula=text, args=str(args), order=','.join(names)))
+            break
+    return result(ex, sorted(oc), fails)
+
+
 def run_case(case):
+    if case[0] == 'folded':
+        return run_folded(case)
     return run_wb(case) if case[0] == 'wb' else run_formula(case)
 
 
 def run(ctx):
     ctx.explore(run_case, cases(ctx.tier), chunksize=2, label='workbook_functions')
     ctx.explore(run_case, formula_cases(ctx.tier), chunksize=4, label='single_formulas')
+    ctx.explore(run_case, folded_cases(ctx.tier), chunksize=1, label='compile_time_folded_references')
     return {}
